@@ -26,6 +26,19 @@ def slug (s : String) : String := String.ofList (s.toList.map fun c => if c.isAl
 /-- names (lower-cased) that mention the canary prefix at all -/
 def suspicious (names : List (List Char)) : List (List Char) := (names.map lower).filter (isInfix ['z', 'q'])
 
+/-- does the document contain the canary token in one of its raw (unescaped) payload forms? -/
+def rawHit (doc tok : List Char) : Bool :=
+  isInfix ('<' :: tok) doc || isInfix ('&' :: tok ++ [';']) doc || isInfix ('"' :: ' ' :: tok) doc
+    || isInfix ('"' :: '_' :: tok) doc || isInfix ('\'' :: ' ' :: tok) doc || isInfix ('\'' :: '_' :: tok) doc
+    || isInfix ('<' :: '!' :: '-' :: '-' :: tok) doc
+
+/-- field of the first canary that occurs raw in the document (attribution of a well-formedness failure) -/
+def rawField (doc : List Char) (cans : Array Json) : Option String :=
+  cans.findSome? fun c =>
+    match getStr c "tok", getStr c "field" with
+    | .ok tok, .ok field => if rawHit doc tok.toList then some field else none
+    | _, _ => none
+
 def handleSvg (i o : Json) : Except String Verdict := do
   match getStr o "svg" with
   | .error _ => return .specfalse "invalid-utf8" "the SVG bytes are not valid UTF-8"
@@ -35,9 +48,15 @@ def handleSvg (i o : Json) : Except String Verdict := do
     match st.mode with
     | .err why =>
       let ctx := vis ((cs.drop (pos - 70)).take (min pos 70 + 30))
-      return .specfalse s!"not-wf:{slug why}" s!"{why} at char {pos}: …{ctx}…"
+      let cans := (getArr i "canaries").toOption.getD #[]
+      match rawField cs cans with
+      | some field => return .specfalse s!"not-wf@{field}" s!"user string of field {field} is emitted unescaped; {why} at char {pos}: …{ctx}…"
+      | none => return .specfalse s!"not-wf:{slug why}" s!"{why} at char {pos}: …{ctx}…"
     | _ =>
       if !accepting st then
+        let cans := (getArr i "canaries").toOption.getD #[]
+        if let some field := rawField cs cans then
+          return .specfalse s!"not-wf@{field}" s!"user string of field {field} is emitted unescaped; document ends in state {repr st.mode}"
         return .specfalse "not-wf:unexpected_end" s!"document ends in state {repr st.mode} with {st.stack.length} open elements"
       let evs := st.evs
       let en := suspicious (elementNames evs)
